@@ -514,11 +514,19 @@ void harness_resolv(void)
 				VP_ASSERT(ns != NULL && ns != pre_ns, "C39: nameserver line: new nameserver not in the ring");
 				VP_ASSERT(c39_sa_equal((struct sockaddr *)&ns->address, exa, 1) && ns->addrlen == (ev_socklen_t)c39_psp_len[0], "C39: nameserver line: recorded address differs (port 0 means 53)");
 				VP_ASSERT(ns->state == 1 && ns->next->prev == ns && ns->prev->next == ns, "C39: nameserver line: ring links broken");
+#if !defined(C39_AF) || C39_AF != 0
 				C39_WITNESS("C39 resolv: nameserver added");
-			} else C39_WITNESS("C39 resolv: duplicate nameserver ignored");
+#endif
+			} else {
+#if !defined(C39_AF) || C39_AF == 1
+				C39_WITNESS("C39 resolv: duplicate nameserver ignored");
+#endif
+			}
 		} else {
 			VP_ASSERT(c39_count_ns(base) == ns_before, "C39: malformed nameserver line changed the nameserver list");
+#if !defined(C39_AF) || C39_AF == 0
 			C39_WITNESS("C39 resolv: malformed nameserver address skipped");
+#endif
 		}
 	} else {
 		VP_ASSERT(c39_psp_calls == 0, "C39: address parser called for a line that is not a nameserver line");
